@@ -389,7 +389,12 @@ async def main(args):
             for rnd in range(2):
                 out.case()
                 seqs = [s.send(args.seed, origins[0], 64)[0] for _ in range(24)]
-                missing = [q for q in seqs if (await s.wait_reply(q, 2.0)) is None]
+                # one deadline for the whole burst (late is not lost: a single 10 s grace period for all of them)
+                missing = list(seqs)
+                for budget in (2.5, 10.0):
+                    t_end = now() + budget
+                    while missing and now() < t_end:
+                        missing = [q for q in missing if (await s.wait_reply(q, 0.05, grace=0)) is None]
                 out.nontrivial((lk, ck, "small-burst", rnd))
                 if missing:
                     reached = sum(1 for q in missing if any(d == s.sent[q][1] for (_, _, d) in origins[0].got))
